@@ -315,9 +315,13 @@ def openpyxl_wb(spec):
     calc = spec.get('calc')
     if calc:
         from openpyxl.workbook.properties import CalcProperties
-        wb.calculation = CalcProperties(iterate=bool(calc.get('iterate')),
-                                        iterateCount=calc.get('count', 100),
-                                        iterateDelta=calc.get('delta', 0.001))
+        if calc.get('bare'):
+            # iteration switched on and nothing else said (count / delta left to the application's defaults)
+            wb.calculation = CalcProperties(iterate=bool(calc.get('iterate')), iterateCount=None, iterateDelta=None)
+        else:
+            wb.calculation = CalcProperties(iterate=bool(calc.get('iterate')),
+                                            iterateCount=calc.get('count', 100),
+                                            iterateDelta=calc.get('delta', 0.001))
     return wb
 
 
@@ -405,8 +409,11 @@ def write_xlsx(spec, path, stored):
         wbx.append('</definedNames>')
     calc = spec.get('calc')
     if calc:
-        wbx.append(f'<calcPr calcId="1" iterate="{int(bool(calc.get("iterate")))}" '
-                   f'iterateCount="{calc.get("count", 100)}" iterateDelta="{calc.get("delta", 0.001)!r}"/>')
+        if calc.get('bare'):
+            wbx.append(f'<calcPr calcId="1" iterate="{int(bool(calc.get("iterate")))}"/>')
+        else:
+            wbx.append(f'<calcPr calcId="1" iterate="{int(bool(calc.get("iterate")))}" '
+                       f'iterateCount="{calc.get("count", 100)}" iterateDelta="{calc.get("delta", 0.001)!r}"/>')
     wbx.append('</workbook>')
     wrels = ['<?xml version="1.0" encoding="UTF-8" standalone="yes"?>',
              '<Relationships xmlns="http://schemas.openxmlformats.org/package/2006/relationships">']
